@@ -1,5 +1,6 @@
 """C18 - parser modules are chosen by creator/component, fed the right data, contained."""
 import json
+import struct
 import os
 import sys
 
@@ -421,22 +422,66 @@ def m2c00_case(draw):
     ver = draw(st.one_of(st.sampled_from([1, 2, 1, 2, 0, 3]), S.byte))
     kind = {72: 'hlog', 73: 'ilog', 84: 'trace'}.get(sub)
     if kind == 'trace' and draw(st.booleans()):
-        buf = draw(DR.trace_buffer([{'hash': 32403714, 'fmt': '', 'loc': ''}], max_entries=3))
+        # entries whose hash means something else for the other drawer type
+        hs = DR.drawer_type_sensitive_hashes() or [32403714]
+        buf = draw(DR.trace_buffer([{'hash': h, 'fmt': '', 'loc': ''} for h in hs[:6]] +
+                                   [{'hash': 32403714, 'fmt': '', 'loc': ''}], max_entries=3))
         data = DR.enc_trace_buffer(buf)[:draw(st.integers(1, 400))]
+    elif kind == 'ilog' and draw(st.booleans()):
+        # entries the two drawer types describe differently: the table must be the one the version names
+        vals = DR.drawer_type_sensitive_ptes() or [0]
+        data = b''.join(struct.pack('>HHI', draw(S.uint(16)), draw(S.uint(16)), draw(st.sampled_from(vals)))
+                        for _ in range(draw(st.integers(1, 4))))
     else:
         data = draw(st.one_of(S.payload(120), S.payload(120),
                               st.integers(1, 64).map(lambda n: bytes(n)),            # all zero
                               st.integers(1, 64).map(lambda n: b'\xff' * n)))
-    return {'sub': sub, 'ver': ver, 'data': data, 'e2e': draw(st.integers(0, 3)) == 0}
+    # a section of the OTHER drawer type decoded just before (same process): the case carries its own history, so
+    # a replay in a fresh process sees the same sequence
+    before = None
+    if kind in ('ilog', 'trace') and ver in (1, 2) and draw(st.booleans()):
+        if kind == 'ilog':
+            bdata = struct.pack('>HHI', 1, 1, (DR.drawer_type_sensitive_ptes() or [0])[0])
+        else:
+            bdata = DR.enc_trace_buffer(draw(DR.trace_buffer([{'hash': 32403714, 'fmt': '', 'loc': ''}], max_entries=1)))
+        before = [sub, 3 - ver, bdata]
+    return {'sub': sub, 'ver': ver, 'data': data, 'e2e': draw(st.integers(0, 3)) == 0, 'before': before}
 
 
 @PROP.given('io-drawer-plugin', lambda tier: m2c00_case(), quick=1600, thorough=20000, shards_quick=8)
 def io_drawer_plugin(case, note):
+    # each case runs in its own fork: the only history a case sees is the one it carries ('before')
+    from ..run import in_fork
+    labels, extra = in_fork(_io_drawer_case, case)
+    note.label(*labels)
+    note.extra_eval += extra
+    note.nontrivial = True
+
+
+class _Note:
+    def __init__(self):
+        self.labels, self.extra_eval, self.nontrivial = [], 0, False
+
+    def label(self, *l):
+        self.labels.extend(l)
+
+
+def _io_drawer_case(case):
+    note = _Note()
+    _io_drawer_body(case, note)
+    return note.labels, note.extra_eval
+
+
+def _io_drawer_body(case, note):
     import udparsers.m2c00.m2c00 as plug
     import io_drawer.hlog as hlog
     import io_drawer.ilog as ilog
     import io_drawer.trace as trace
     sub, ver, data = case['sub'], case['ver'], case['data']
+    if case.get('before'):
+        bsub, bver, bdata = case['before']
+        guard('C18.m2c00', plug.parseUDToJson, bsub, bver, memoryview(bdata))
+        note.label('after-other-drawer-type')
     text = guard('C18.m2c00', plug.parseUDToJson, sub, ver, memoryview(data))
     try:
         out = json.loads(text)
